@@ -347,6 +347,38 @@ func cmdCheck(args []string) int {
 			boundedReps = append(boundedReps, map[string]any{"name": b.Name, "stands_for": b.StandsFor, "bound": b.Bound, "command": strings.Join(b.Cmd, " "), "result": res, "seconds": time.Since(tb).Seconds()})
 		}
 	}
+	// thorough tier: the registered replay tests of this property (one per defect found so far) are run against the
+	// tree as regression tests: each must pass, except those registered for a recorded known finding
+	if *tier == "thorough" && *only == "" {
+		for _, rr := range registeredReplays(cfg.ID) {
+			isKnown := false
+			for _, k := range known {
+				if k.Kind == "finding" && k.Property == cfg.ID {
+					for _, pf := range rr.Prefixes {
+						if strings.HasPrefix(k.Obligation, pf) {
+							isKnown = true
+						}
+					}
+				}
+			}
+			if isKnown {
+				continue
+			}
+			tb := time.Now()
+			cmd := exec.Command(rr.Cmd[0], rr.Cmd[1:]...)
+			cmd.Dir = *verifDir
+			cmd.Env = os.Environ()
+			outB, err := cmd.CombinedOutput()
+			fmt.Printf("  replay-test    %-8s %6.2fs          %s\n", map[bool]string{true: "pass", false: "FAILED"}[err == nil], time.Since(tb).Seconds(), strings.Join(rr.Cmd, " "))
+			boundedReps = append(boundedReps, map[string]any{"name": "regression replay: " + strings.Join(rr.Cmd, " "), "stands_for": "a defect found earlier by obligations " + strings.Join(rr.Prefixes, ", "), "bound": "one concrete failing input of that defect", "result": map[bool]string{true: "passes on this tree", false: "FAILS on this tree"}[err == nil], "seconds": time.Since(tb).Seconds()})
+			if err != nil {
+				_ = os.MkdirAll(replayDir, 0o755)
+				rp := filepath.Join(replayDir, "regression_"+mangle(strings.Join(rr.Cmd, "_"))+".log")
+				_ = os.WriteFile(rp, outB, 0o644)
+				violations = append(violations, fmt.Sprintf("VIOLATION property=%s replay=%s", cfg.ID, rp))
+			}
+		}
+	}
 	for _, k := range knownHits {
 		fmt.Println(k)
 	}
@@ -421,6 +453,32 @@ func writeReplay(dir, prop string, o *Obligation, why string) string {
 }
 
 var replayVerifDir = "/verif"
+
+type regReplay struct {
+	Property string   `json:"property"`
+	Prefixes []string `json:"prefixes"`
+	Cmd      []string `json:"cmd"`
+}
+
+func registeredReplays(prop string) []regReplay {
+	data, err := os.ReadFile(filepath.Join(replayVerifDir, "replays.json"))
+	if err != nil {
+		return nil
+	}
+	var cfg struct {
+		Replays []regReplay `json:"replays"`
+	}
+	if json.Unmarshal(data, &cfg) != nil {
+		return nil
+	}
+	var out []regReplay
+	for _, r := range cfg.Replays {
+		if r.Property == prop && len(r.Cmd) > 0 {
+			out = append(out, r)
+		}
+	}
+	return out
+}
 
 // runRegisteredReplay looks the obligation up in /verif/replays.json and runs the registered test against the real code.
 // reproduced is true when the test fails (exit status != 0), i.e. the violation shows on the real code.
